@@ -461,6 +461,11 @@ func VerifyBlob(ctx context.Context, blobVerifier BlobVerifier, blobReader io.Re
 		return ocispec.Descriptor{}, nil, err
 	}
 
+	if vo.EnvelopeContent == nil {
+		// the signature was not processed, e.g. the verification level of the
+		// applicable trust policy statement is skip
+		return ocispec.Descriptor{}, vo, nil
+	}
 	var payload envelope.Payload
 	if err = json.Unmarshal(vo.EnvelopeContent.Payload.Content, &payload); err != nil {
 		return ocispec.Descriptor{}, nil, err
